@@ -1843,8 +1843,73 @@ class ShortcutNode(ListNode):
             return True
         return False
 
+    def _describes_its_values(self, leading_node=None):
+        """
+        Whether the values of a repeat or interpolate shortcut are still the ones the shortcut expands to.
+
+        :param leading_node: the previous shortcut if the first value belongs to it.
+        :type leading_node: ShortcutNode
+        :rtype: bool
+        """
+        if self._type not in {
+            Shortcuts.REPEAT,
+            Shortcuts.INTERPOLATE,
+            Shortcuts.LOG_INTERPOLATE,
+        }:
+            return True
+        nodes = list(self.nodes)
+        if leading_node is not None and len(leading_node.nodes) > 0:
+            nodes.insert(0, leading_node.nodes[-1])
+        values = [node.value for node in nodes]
+        if len(values) < 2 or any(value is None for value in values):
+            return True
+        if self._type == Shortcuts.REPEAT:
+            expected = [values[0]] * len(values)
+        else:
+            begin, end = values[0], values[-1]
+            is_log = self._type == Shortcuts.LOG_INTERPOLATE
+            if is_log:
+                if begin <= 0 or end <= 0:
+                    return False
+                begin, end = math.log(begin, 10), math.log(end, 10)
+            spacing = (end - begin) / (len(values) - 1)
+            expected = [begin + spacing * i for i in range(len(values))]
+            if is_log:
+                expected = [10**value for value in expected]
+        return all(
+            math.isclose(value, answer, rel_tol=rel_tol, abs_tol=abs_tol)
+            for value, answer in zip(values, expected)
+        )
+
+    def _format_expanded(self, has_leading_node):
+        """
+        Formats every value on its own, because the shortcut no longer describes them.
+
+        The values that only exist through the shortcut are separated by a single space;
+        the values that were in the input keep their padding.
+
+        :param has_leading_node: whether the first value belongs to the previous shortcut.
+        :type has_leading_node: bool
+        :rtype: str
+        """
+        nodes = list(self.nodes)
+        first = 0 if has_leading_node else 1
+        if self._type == Shortcuts.REPEAT:
+            virtual_nodes = nodes[first:]
+        else:
+            virtual_nodes = nodes[first:-1]
+        for node in virtual_nodes:
+            node.padding = PaddingNode(" ")
+        ret = "".join(node.format() for node in nodes)
+        if self.end_padding:
+            ret = ret.rstrip(" ")
+        return ret
+
     def format(self, leading_node=None):
-        if self._type == Shortcuts.JUMP:
+        if not self._describes_its_values(leading_node):
+            # a value of the shortcut was changed: it can only be written expanded
+            temp = self._format_expanded(leading_node is not None)
+        elif self._type == Shortcuts.JUMP:
             temp = self._format_jump()
         # repeat
         elif self._type == Shortcuts.REPEAT:
